@@ -3,13 +3,12 @@ use std::{collections::HashMap, sync::Arc};
 use crossbeam::channel::{Receiver, RecvError, Sender};
 use dashmap::DashMap;
 use nomt_core::trie::KeyPath;
-use threadpool::ThreadPool;
 
 use crate::{
     beatree::{self, AsyncLookup, OverflowPageInfo, ReadTransaction},
     io::{CompleteIo, FatPage, IoHandle},
     overlay::LiveOverlay,
-    task::{spawn_task, TaskResult},
+    task::TaskResult,
 };
 
 /// A trait for asynchronously loading values from the store.
@@ -61,11 +60,13 @@ pub(super) enum DeltaBuilderCommand {
     Join(Sender<()>, Arc<DashMap<KeyPath, Option<Vec<u8>>>>),
 }
 
-/// Start the reverse delta builder. The thread pool must have at least 2 threads or else the worker
-/// will never conclude.
+/// Start the reverse delta builder.
+///
+/// The worker lives as long as the session it serves, so it gets a thread of its own: in a
+/// shared pool the workers of sessions that coexist would queue up behind each other and
+/// finishing one session would wait for another one to end.
 pub(super) fn start(
     store: impl LoadValueAsync,
-    tp: &ThreadPool,
     priors: Arc<DashMap<KeyPath, Option<Vec<u8>>>>,
 ) -> (Sender<DeltaBuilderCommand>, Receiver<TaskResult<()>>) {
     let (command_tx, command_rx) = crossbeam::channel::unbounded();
@@ -88,7 +89,13 @@ pub(super) fn start(
         }
     };
 
-    spawn_task(&tp, worker_task, worker_result_tx);
+    std::thread::Builder::new()
+        .name("rollback-worker".to_string())
+        .spawn(move || {
+            let res = std::panic::catch_unwind(std::panic::AssertUnwindSafe(worker_task));
+            let _ = worker_result_tx.send(res);
+        })
+        .expect("failed to spawn the reverse delta worker thread");
 
     (command_tx, worker_result_rx)
 }
